@@ -1200,6 +1200,58 @@ fn mode_datacodec(_seed: u64, limit: usize) -> Vec<serde_json::Value> {
             }
         }
     }
+    // bData / unBData, listData / unListData, mapData / unMapData: inverse pairs; un* fail on every other Data shape; chooseData selects by shape
+    let shapes: Vec<(usize, pallas_primitives::alonzo::PlutusData)> = vec![
+        (1, Data::constr(0, vec![])), (1, Data::constr(3, vec![Data::integer(1.into())])),
+        (2, Data::map(vec![])), (2, Data::map(vec![(Data::integer(1.into()), Data::bytestring(vec![2]))])),
+        (3, Data::list(vec![])), (3, Data::list(vec![Data::integer(1.into()), Data::bytestring(vec![1, 2, 3])])),
+        (4, Data::integer(0.into())), (4, Data::integer(BigInt::from(-1) << 70u32)),
+        (5, Data::bytestring(vec![])), (5, Data::bytestring(vec![1, 2, 3])), (5, Data::bytestring((0..=70u8).collect())),
+    ];
+    for b in bytestrings().into_iter().chain(vec![vec![1u8, 2, 3], (0..=70u8).collect()]) {
+        if fails.len() >= limit { break; }
+        match call_builtin(F::BData, sem, &[Value::byte_string(b.clone())]) {
+            Ok(Ok(d)) => {
+                expect_builtin(&mut fails, F::UnBData, sem, &[d.clone()], format!("bData #{}", hex(&b)), Some(Value::byte_string(b.clone())));
+                expect_builtin(&mut fails, F::EqualsData, sem, &[d, Value::data(Data::bytestring(b.clone()))], format!("bData #{0}, B #{0}", hex(&b)), Some(Value::bool(true)));
+            }
+            other => fails.push(fail("datacodec", "bData failed", serde_json::json!({"bytes": hex(&b)}), "a data value".into(), format!("{other:?}"))),
+        }
+    }
+    for (k, d) in &shapes {
+        if fails.len() >= limit { break; }
+        let dv = Value::data(d.clone());
+        let txt = format!("{}", Data::to_hex(d.clone()));
+        let sel: Vec<Value> = (1..=5).map(|j| Value::integer(BigInt::from(j))).collect();
+        let mut args = vec![dv.clone()];
+        args.extend(sel.iter().cloned());
+        expect_builtin(&mut fails, F::ChooseData, sem, &args, format!("chooseData {txt} 1 2 3 4 5"), Some(Value::integer(BigInt::from(*k))));
+        for (f, kk) in [(F::UnConstrData, 1usize), (F::UnMapData, 2), (F::UnListData, 3), (F::UnIData, 4), (F::UnBData, 5)] {
+            if kk != *k {
+                expect_builtin(&mut fails, f, sem, &[dv.clone()], format!("{f:?} {txt}"), None);
+            }
+        }
+        for (_, d2) in &shapes {
+            expect_builtin(&mut fails, F::EqualsData, sem, &[dv.clone(), Value::data(d2.clone())], format!("equalsData {txt} {}", Data::to_hex(d2.clone())), Some(Value::bool(d == d2)));
+        }
+        // mkPairData keeps both components, in order
+        let want = Value::Con(Rc::new(Constant::ProtoPair(Type::Data, Type::Data, Rc::new(Constant::Data(d.clone())), Rc::new(Constant::Data(Data::integer(9.into()))))));
+        expect_builtin(&mut fails, F::MkPairData, sem, &[dv.clone(), Value::data(Data::integer(9.into()))], format!("mkPairData {txt} (I 9)"), Some(want));
+        if *k == 3 {
+            if let Ok(Ok(l)) = call_builtin(F::UnListData, sem, &[dv.clone()]) {
+                expect_builtin(&mut fails, F::ListData, sem, &[l], format!("listData (unListData {txt})"), Some(dv.clone()));
+            } else { fails.push(fail("datacodec", "unListData failed on a list", serde_json::json!({"data": txt}), "a list".into(), "failure".into())); }
+        }
+        if *k == 2 {
+            if let Ok(Ok(l)) = call_builtin(F::UnMapData, sem, &[dv.clone()]) {
+                expect_builtin(&mut fails, F::MapData, sem, &[l], format!("mapData (unMapData {txt})"), Some(dv.clone()));
+            } else { fails.push(fail("datacodec", "unMapData failed on a map", serde_json::json!({"data": txt}), "a list of pairs".into(), "failure".into())); }
+        }
+    }
+    expect_builtin(&mut fails, F::MkNilData, sem, &[Value::Con(Rc::new(Constant::Unit))], "mkNilData ()".into(), Some(Value::list(Type::Data, vec![])));
+    expect_builtin(&mut fails, F::MkNilPairData, sem, &[Value::Con(Rc::new(Constant::Unit))], "mkNilPairData ()".into(), Some(Value::list(Type::Pair(Rc::new(Type::Data), Rc::new(Type::Data)), vec![])));
+    expect_builtin(&mut fails, F::MkNilData, sem, &[Value::integer(0.into())], "mkNilData 0".into(), None);
+    println!("BOUNDS mode=datacodec 11 Data shapes: b/unB, list/unList, map/unMap inverse; un* reject other shapes; chooseData; equalsData on all pairs; mkPairData; mkNil*");
     println!("BOUNDS mode=datacodec {n} boundary integers (|n| up to 2^200): unIData.iData, serialiseData.iData against the canonical CBOR integer encoding, equalsData");
     fails
 }
